@@ -139,7 +139,8 @@ def _is_url_error(prog, cls):
 
 
 def _int_label_lemma(ctx, fi):
-    """Lemma DIGIT-LABEL: `int(x)` cannot raise when (1) x ranges over
+    """Lemma DIGIT-LABEL (premise (2b): an earlier operand bounds len(x) by at most 4300,
+    CPython's int-max-str-digits): `int(x)` cannot raise when (1) x ranges over
     S.split(".") in a comprehension, (2) an earlier operand of the `and`
     holding the int() call (inside the comprehension) excludes the empty label
     (`x != ""` / `x`), and (3) an earlier operand of an enclosing `and`, or a
@@ -187,6 +188,23 @@ def _int_label_lemma(ctx, fi):
                 if (isinstance(l, ast.Name) and l.id == x and isinstance(r, ast.Constant) and r.value == "") or (isinstance(r, ast.Name) and r.id == x and isinstance(l, ast.Constant) and l.value == ""):
                     nonempty = True
         if not nonempty:
+            continue
+        # CPython refuses int() on more than 4300 digits: an earlier operand must bound the label's length
+        Nl = Normalizer()
+        bounded = False
+        for e in earlier_inner:
+            try:
+                c_ = Nl.cmp(e)
+            except NormError:
+                continue
+            if c_[0] == "lt" and any(c_ == Nl.cmp(ast.parse("len(%s) <= %d" % (x, k), mode="eval").body) for k in (1, 2, 3, 4, 5, 8, 10, 16, 100, 1000, 4300)):
+                bounded = True
+            elif c_[0] == "lt":
+                p_ = c_[1]
+                k = p_.t.get((), None)
+                if set(p_.t) == {(("len(%s)" % x, 1),), ()} and p_.t[(("len(%s)" % x, 1),)] == 1 and k is not None and -4301 <= k < 0:
+                    bounded = True
+        if not bounded:
             continue
         conds = list(earlier_outer)
         root = S
@@ -565,6 +583,8 @@ def _ip_literal_predicate(ctx, fi, P, E):
                         pass
                     elif snf is not None and snf[0] == "lt" and N.cmp(ast.parse("0 <= int(%s)" % x, mode="eval").body) == snf:
                         pass
+                    elif snf is not None and any(snf == N.cmp(ast.parse("len(%s) <= %d" % (x, k), mode="eval").body) for k in range(3, 4301)):
+                        pass  # a length bound of at least 3 digits removes no label <= 255 without leading zeros
                     else:
                         unknown = True
                 if bound and not unknown:
